@@ -47,3 +47,9 @@ claim("C04",
   "Histories of 1-5 BuyStorage / pay-once PostFile messages under generated ratio and price parameters, price-feed states, payer balances, size tiers, durations, ForAddress and Referral choices (address, RNS name, self, unknown, junk, module accounts) and plan states (none/active/expired, with follow-up upgrades and renewals). Every message: failure moves nothing; success debits exactly the recomputed price (chain's exported cost function, independent proration and discount), gauge account credit equals the growth of its record, POL and referrer/fee-collector shares within one unit, remainder in the module account, credits <= debit, nobody else changes, supply constant. The referrer-paid-POL-share defect is fixed in /repo (1c4bf3e3).",
   "GetStorageCost/GetStorageCostKbs are taken as 'the price the chain computes'; coin amounts <= 1e15; fork mode without ante handler (no fees).",
   "DESIGN.md section 4 C04")
+
+claim("C02",
+  "property-based test (rapid) over generated (size, chunk size, window, check interval, start height, proof placement, gas seed) schedules on a fork of the real app, plus exhaustive enumeration of a small window/phase sub-space in the thorough tier; reference Merkle tree built from the property's leaf encoding",
+  "Each schedule posts a real file, lets one or two honest registered providers join and prove once per file window at generated offsets (window edges and reward heights weighted up) and runs every block's storage BeginBlocker through the window after the last proof. Oracle: challenge always < ceil(size/chunk); honest proof accepted; prover still listed and burn counter \"0\" after every reward block; utils.BuildTree root equals the reference root. Thorough adds the exhaustive sub-space W,C in [2,9] x S in [1,WC] x join {0,1} x offsets {0,W/2,W-1}^3 (104,544 schedules).",
+  "Falsification only outside the enumerated sub-space; owner's plan comes from a real purchase; CollateralPrice lowered by a parameter change.",
+  "DESIGN.md section 4 C02")
